@@ -814,12 +814,11 @@ class Frame(object):
                 path = path(ts)
         elif isinstance(path, (list, np.ndarray)):
             path = np.array(path)
-            if path.shape != self.ts.shape:
+            # With Doppler smearing, one extra value (the ending frequency of
+            # the last time sample) is needed
+            if path.shape != (tchans_eff,):
                 raise ValueError(f'Shape of path array is {path.shape} '
-                                 f'!= {self.ts.shape}.')
-            elif doppler_smearing and len(path) != self.tchans + 1:
-                raise ValueError(f'To Doppler smear power, must provide'
-                                 f'path array with {self.tchans + 1} values')
+                                 f'!= {(tchans_eff,)}.')
         elif isinstance(path, (int, float)):
             path = np.full(tchans_eff, path)
         else:
